@@ -22,6 +22,9 @@ type propConfig struct {
 	// extra obligations not tied to one function (lemmas, sweeps)
 	extra func(g *G, idx funcIndex, cs *contractSet, prop string) ([]*Obligation, []string, error)
 	undecided string
+	// every function under contract in this package takes part (its frame and
+	// the other structural obligations), whatever its clauses are tagged with
+	pkgAll string
 }
 
 var propConfigs = map[string]*propConfig{
@@ -34,7 +37,7 @@ var propConfigs = map[string]*propConfig{
 	"C24": {extra: sweepSendScope, undecided: "byte-level serialisation of the packet (paho's Write, trusted A-PAHO); UTF-8 well-formedness and the U+0000 ban of MQTT strings; validity of predefined topic names from the configuration (A-CFG)"},
 	"C32": {undecided: "that gateway and client really run with the same configuration (the property's premise); the composition itself is the observation that both sides' contracts resolve a predefined ID with the same specification function nameSpec(configuration, client ID, ID) and a short ID with the proved two-octet coding"},
 	"C13": {undecided: "the time bound (connection poll interval plus pending send); goroutines not in the session's errgroup (per-exchange watcher goroutines and timers end on context cancellation: not decided); that a cause reaches the errgroup (the receive loops are not under contract: A-RECVLOOP)"},
-	"C15": {extra: sweepIsolation, undecided: "the UDP/DTLS demultiplexer (pion) that maps peer addresses to connections; writes through slices aliasing shared configuration data (A-APPEND); timing interference (shared CPU, shared broker)"},
+	"C15": {pkgAll: "gateway.", extra: sweepIsolation, undecided: "the UDP/DTLS demultiplexer (pion) that maps peer addresses to connections; writes through slices aliasing shared configuration data (A-APPEND); timing interference (shared CPU, shared broker)"},
 	"C30": {undecided: "what the YAML decoder and the option parser's loop compute (A-YAML, A-PARSE); the tools' flag plumbing through urfave/cli (A-CLI)"},
 	"C31": {extra: sweepAuthOnlyInConnect, undecided: "flag and environment-variable resolution inside urfave/cli (A-CLI); DTLS itself"},
 	"C17": {undecided: "real loss timing: which retransmissions happen is the retry budget of C19 under A-TIMER; the API's blocking points are treated with rely clauses (A-RELY)"},
@@ -83,7 +86,7 @@ func (pc *propConfig) run(prop string, g *G, idx funcIndex, cs *contractSet, out
 		if c.Trusted || c.Inline {
 			continue
 		}
-		if hasTag(c.AllTags(), prop) {
+		if hasTag(c.AllTags(), prop) || (pc.pkgAll != "" && strings.HasPrefix(k, pc.pkgAll)) {
 			keys = append(keys, k)
 		}
 	}
